@@ -4,8 +4,8 @@ CONSTANTS
   NoVal = 0
   KeySet = {"a", "b"}
   Vals = {1}
-  MaxH = 4
-  HistFirst = FALSE
-  OldLast = FALSE
+  MaxH = 3
+  HistFirst = TRUE
+  OldLast = TRUE
 INVARIANTS TypeOK ReadsRefineMap CommitInvisible VersionBound Recoverable
 CHECK_DEADLOCK FALSE
